@@ -329,6 +329,9 @@ def run(ctx):
     c14_1(ctx, seen)
     c14_2(ctx, seen)
     c14_3(ctx, seen, impls)
+    # "input with trailing or missing bytes is rejected": the framing clauses of the top-level decoders (shared with C13.3)
+    from . import c13
+    c13.framing(ctx, "C14.4")
 
 
 def c14_1(ctx, seen):
@@ -416,6 +419,14 @@ def _const_derived(t):
     return False
 
 
+def _divided_by_size_of(t, el):
+    t = strip_all(t)
+    if t[0] == "cast":
+        return _divided_by_size_of(t[1], el)
+    return t[0] == "bin" and t[1] == "Div" and strip_all(t[3])[0] == "call" and strip_all(t[3])[1] == "core::mem::size_of::<%s>" % el \
+        and _const_derived(t[2])
+
+
 def c14_2(ctx, seen):
     R = "C14.2"
     fb = ctx.fb
@@ -436,6 +447,14 @@ def c14_2(ctx, seen):
                 if not ok and size[0] == "call" and U.flat(size[1]).endswith("cmp::min"):
                     ok = any(_const_derived(a) for a in size[2])
                     how = "min(_, constant-derived)"
+                    # the capacity counts elements: for an element type that is not one byte wide the cap has to be a byte
+                    # budget divided by size_of of that element type
+                    m_el = re.search(r"Vec::<(.*)>::with_capacity$", name)
+                    el = m_el.group(1) if m_el else None
+                    if ok and el is not None and el not in ("u8", "i8", "bool"):
+                        caps = [a for a in size[2] if _const_derived(a)]
+                        ok = any(_divided_by_size_of(a, el) for a in caps)
+                        how = "min(_, byte budget / size_of::<%s>())" % el
                 ctx.ob(R, "alloc:%s|%s#%d" % (p, fl.split("::")[-1], k), ok,
                        "allocation size is %s" % (how if ok else "input-controlled: " + show(size)[:200]), where=b.where(bi))
                 ctx.sample({"rule": R, "fn": p, "call": fl, "size": show(size)[:200]})
